@@ -2,6 +2,8 @@
 // library invokes a harness slot, the slot logs the invocation and keeps executing the following ops of the op
 // file from inside the slot until it reads "ret".
 //   ops:  connect e g l k | disconnect e g l k | emit e g | ret | destroyL l | destroyE e
+//         arity n   (right after reset) the signals and slots of this execution take n = 0..8 int arguments: each arity is
+//                   a separate emit() overload in Callback.hpp
 #define DRV_NO_MAIN
 #include "drv.h"
 #define private public
@@ -25,45 +27,101 @@ static void run_ops();
 
 static void log_event(const char* op, int e, int g, int l, int k);
 
+static int g_arity = 0;          // number of int arguments of the signals / slots of this execution (0..8)
+#define ARGS0
+#define ARGS1 int a0
+#define ARGS2 ARGS1, int a1
+#define ARGS3 ARGS2, int a2
+#define ARGS4 ARGS3, int a3
+#define ARGS5 ARGS4, int a4
+#define ARGS6 ARGS5, int a5
+#define ARGS7 ARGS6, int a6
+#define ARGS8 ARGS7, int a7
+#define VALS0
+#define VALS1 1
+#define VALS2 VALS1, 2
+#define VALS3 VALS2, 3
+#define VALS4 VALS3, 4
+#define VALS5 VALS4, 5
+#define VALS6 VALS5, 6
+#define VALS7 VALS6, 7
+#define VALS8 VALS7, 8
+#define SUM0 0
+#define SUM1 a0
+#define SUM2 SUM1 + a1 * 3
+#define SUM3 SUM2 + a2 * 5
+#define SUM4 SUM3 + a3 * 7
+#define SUM5 SUM4 + a4 * 11
+#define SUM6 SUM5 + a5 * 13
+#define SUM7 SUM6 + a6 * 17
+#define SUM8 SUM7 + a7 * 19
+static const int g_expectSum[9] = { 0, 1, 7, 22, 50, 105, 183, 302, 454 };
+#define FOR_ARITIES(M) M(0) M(1) M(2) M(3) M(4) M(5) M(6) M(7) M(8)
+
 struct Em : public Callback::Emitter
 {
   int id;
-  void sig1() {}
-  void sig2() {}
+#define DEF_SIG(N) void sig1_##N(ARGS##N) {} void sig2_##N(ARGS##N) {}
+  FOR_ARITIES(DEF_SIG)
   void fire(int g)
   {
     int myId = id;      // the object may be destroyed by a slot: nothing of *this is touched after emit()
     (void)myId;
-    if(g == 1) emit(&Em::sig1); else emit(&Em::sig2);
+    switch(g_arity)
+    {
+#define FIRE0 case 0: if(g == 1) emit(&Em::sig1_0); else emit(&Em::sig2_0); break;
+#define FIREN(N) case N: if(g == 1) emit(&Em::sig1_##N, VALS##N); else emit(&Em::sig2_##N, VALS##N); break;
+    FIRE0 FIREN(1) FIREN(2) FIREN(3) FIREN(4) FIREN(5) FIREN(6) FIREN(7) FIREN(8)
+    }
   }
 };
 struct Lis : public Callback::Listener
 {
   int id;
-  void enter(int k)
+  void enter(int k, int sum, int arity)
   {
     int myId = id;      // reading id through a dangling this-pointer is what ASan reports for a slot of a destroyed listener
     if(g_unwinding) return;
-    log_event("invoke", 0, 0, myId, k);
+    // a slot that receives other arguments than the emitter passed is logged as an unknown slot (the trace spec rejects it)
+    log_event("invoke", 0, 0, myId, sum == g_expectSum[arity] ? k : 9);
     ++g_depth;
     run_ops();
     --g_depth;
   }
-  void slot1() { enter(1); }
-  void slot2() { enter(2); }
+#define DEF_SLOT(N) void slot1_##N(ARGS##N) { enter(1, SUM##N, N); } void slot2_##N(ARGS##N) { enter(2, SUM##N, N); }
+  FOR_ARITIES(DEF_SLOT)
 };
+
+static Callback::MemberFuncPtr sigPtr(int g, int n)
+{
+  switch(n)
+  {
+#define SIGP(N) case N: return g == 1 ? Callback::MemberFuncPtr(&Em::sig1_##N) : Callback::MemberFuncPtr(&Em::sig2_##N);
+  FOR_ARITIES(SIGP)
+  }
+  return Callback::MemberFuncPtr(&Em::sig1_0);
+}
+static Callback::MemberFuncPtr slotPtr(int k, int n)
+{
+  switch(n)
+  {
+#define SLOTP(N) case N: return k == 1 ? Callback::MemberFuncPtr(&Lis::slot1_##N) : Callback::MemberFuncPtr(&Lis::slot2_##N);
+  FOR_ARITIES(SLOTP)
+  }
+  return Callback::MemberFuncPtr(&Lis::slot1_0);
+}
 
 static int lisId(const Callback::Listener* p) { for(int i = 1; i <= NL; ++i) if(L[i] == p) return i; return 0; }
 static int slotId(const Callback::MemberFuncPtr& s)
 {
-  if(s == Callback::MemberFuncPtr(&Lis::slot1)) return 1;
-  if(s == Callback::MemberFuncPtr(&Lis::slot2)) return 2;
+  if(s == slotPtr(1, g_arity)) return 1;
+  if(s == slotPtr(2, g_arity)) return 2;
   return 0;
 }
 static int sigId(const Callback::MemberFuncPtr& s)
 {
-  if(s == Callback::MemberFuncPtr(&Em::sig1)) return 1;
-  if(s == Callback::MemberFuncPtr(&Em::sig2)) return 2;
+  if(s == sigPtr(1, g_arity)) return 1;
+  if(s == sigPtr(2, g_arity)) return 2;
   return 0;
 }
 
@@ -79,7 +137,7 @@ static void log_bookkeeping()
       fputs(g == 1 ? "[" : ",[", g_out);
       if(E[e])
       {
-        Callback::MemberFuncPtr sig = g == 1 ? Callback::MemberFuncPtr(&Em::sig1) : Callback::MemberFuncPtr(&Em::sig2);
+        Callback::MemberFuncPtr sig = sigPtr(g, g_arity);
         Map<Callback::MemberFuncPtr, Callback::Emitter::SignalData>::Iterator it = E[e]->signalData.find(sig);
         if(it != E[e]->signalData.end())
         {
@@ -152,21 +210,23 @@ static void apply(const char* op)
   {
     int e = (int)tok_int(), g = (int)tok_int(), l = (int)tok_int(), k = (int)tok_int();
     if(e < 1 || e > NE || l < 1 || l > NL || !E[e] || !L[l]) { log_event("nop", 0, 0, 0, 0); return; }
-    if(op[0] == 'c')
+    switch(g_arity)
     {
-      if(g == 1 && k == 1) Callback::connect(E[e], &Em::sig1, L[l], &Lis::slot1);
-      else if(g == 1) Callback::connect(E[e], &Em::sig1, L[l], &Lis::slot2);
-      else if(k == 1) Callback::connect(E[e], &Em::sig2, L[l], &Lis::slot1);
-      else Callback::connect(E[e], &Em::sig2, L[l], &Lis::slot2);
-    }
-    else
-    {
-      if(g == 1 && k == 1) Callback::disconnect(E[e], &Em::sig1, L[l], &Lis::slot1);
-      else if(g == 1) Callback::disconnect(E[e], &Em::sig1, L[l], &Lis::slot2);
-      else if(k == 1) Callback::disconnect(E[e], &Em::sig2, L[l], &Lis::slot1);
-      else Callback::disconnect(E[e], &Em::sig2, L[l], &Lis::slot2);
+#define CONN(N) case N: \
+      if(op[0] == 'c') { if(g == 1 && k == 1) Callback::connect(E[e], &Em::sig1_##N, L[l], &Lis::slot1_##N); else if(g == 1) Callback::connect(E[e], &Em::sig1_##N, L[l], &Lis::slot2_##N); \
+                         else if(k == 1) Callback::connect(E[e], &Em::sig2_##N, L[l], &Lis::slot1_##N); else Callback::connect(E[e], &Em::sig2_##N, L[l], &Lis::slot2_##N); } \
+      else { if(g == 1 && k == 1) Callback::disconnect(E[e], &Em::sig1_##N, L[l], &Lis::slot1_##N); else if(g == 1) Callback::disconnect(E[e], &Em::sig1_##N, L[l], &Lis::slot2_##N); \
+             else if(k == 1) Callback::disconnect(E[e], &Em::sig2_##N, L[l], &Lis::slot1_##N); else Callback::disconnect(E[e], &Em::sig2_##N, L[l], &Lis::slot2_##N); } \
+      break;
+    FOR_ARITIES(CONN)
     }
     log_event(op, e, g, l, k);
+  }
+  else if(!strcmp(op, "arity"))
+  {
+    int n = (int)tok_int();
+    if(n >= 0 && n <= 8 && g_depth == 0 && g_emits == 0) g_arity = n;
+    log_event("nop", 0, 0, 0, 0);
   }
   else if(!strcmp(op, "emit"))
   {
@@ -243,6 +303,7 @@ int main(int argc, char** argv)
     {
       g_pending_reset = 0;
       reset_all();
+      g_arity = 0;
       fputs("{\"op\":\"reset\"}\n", g_out);
     }
   }
